@@ -186,6 +186,8 @@ func init() {
 			rows := p.ruleMatrix(c, kinds, "Contains", 6)
 			rows = append(rows, p.ruleMatrix(c, kinds, "Intersects", 6)...)
 			c.Notes = append(c.Notes, matrixEvidence(rows)...)
+			p.ruleCollectionExists(c)
+			p.ruleCollectionWithin(c)
 			p.ruleP1(c)
 			p.ruleP2(c)
 			p.ruleE8(c, "geometry.Rect.ContainsRect", "geometry.Rect.IntersectsRect", "geometry.Rect.ContainsPoint")
@@ -199,6 +201,7 @@ func init() {
 			p.ruleCollectionFold(c)
 			p.ruleCollectionSearch(c)
 			p.ruleCollectionWithin(c)
+			p.ruleCollectionExists(c)
 			p.ruleFolds(c)
 			p.ruleE8(c, "geojson.unionRects", "geometry.Rect.IntersectsRect")
 			p.ruleCallbackProtocol(c)
@@ -221,11 +224,12 @@ func init() {
 	})
 	register(&PropertyDef{
 		ID: "C12", Level: "other",
-		Explanation: "Decides only the clause 'translation via Move': Point/Rect/Segment.Move return X+deltaX, Y+deltaY for every stored coordinate (symbolic return terms); baseSeries.Move rebuilds point i as (points[i].X+deltaX, points[i].Y+deltaY) with the same index, keeps closedness, copies the index kind and rebuilds the index for the moved points (never shares the old one); Line.Move and Poly.Move hand (deltaX, deltaY) to every ring unchanged and in order. NOT decided: invariance of predicate answers under translation, scaling, reflection, rotation of the start vertex, reversal, or presence of the closing vertex — these relate two numerical executions.",
+		Explanation: "Decides the clause 'translation via Move' and the closing-segment rule (NumSegments/Empty as functions of length, the closed flag and whether the last position repeats the first, tabulated over all order types — so that a ring written with or without its closing position has the same segments): Point/Rect/Segment.Move return X+deltaX, Y+deltaY for every stored coordinate (symbolic return terms); baseSeries.Move rebuilds point i as (points[i].X+deltaX, points[i].Y+deltaY) with the same index, keeps closedness, copies the index kind and rebuilds the index for the moved points (never shares the old one); Line.Move and Poly.Move hand (deltaX, deltaY) to every ring unchanged and in order. NOT decided: invariance of predicate answers under translation, scaling, reflection, rotation of the start vertex, reversal, or presence of the closing vertex — these relate two numerical executions.",
 		Run: func(p *Program, c *Check) {
 			p.ruleMove(c)
 			p.ruleAccelTables(c, effects(p))
 			p.ruleDerivedAttributes(c)
+			p.ruleE8(c, "(*geometry.baseSeries).NumSegments", "(*geometry.baseSeries).Empty")
 		},
 	})
 	register(&PropertyDef{
@@ -250,7 +254,7 @@ func init() {
 		ID: "C14", Level: "other",
 		Explanation: "Decides only the clause 'the rectangle lies within the world bounds and widens to the full longitude range at a pole / across the antimeridian', as a clamp typestate on RectFromCenter's SSA: at the degree conversion minLat >= -pi/2, maxLat <= pi/2, minLon >= -pi, maxLon <= pi hold on every path (each bound is an in-range constant or passed the not-taken edge of the matching out-of-range test), and every join that clamps a latitude also assigns both longitude bounds to ∓pi. Assumes non-NaN intermediate values. NOT decided: coverage of the disc, the tangent-longitude formula, the tiny-radius guard, NaN freedom.",
 		Run: func(p *Program, c *Check) {
-			p.ruleClamp(c)
+			p.ruleGeoScenarios(c)
 			p.ruleGeoUnits(c, map[string]bool{"RectFromCenter": true, "DestinationPoint": true}, true)
 			c.Assume("intermediate values are not NaN (comparisons with NaN are false and would skip the clamps)")
 		},
